@@ -329,7 +329,7 @@ func runConc(run *mc.Run) int {
 			}
 		}
 	}
-	cov.Extra["programs"] = per
+	cov.Extra["concurrent_programs"] = per
 	// free-running race pass in a separate binary
 	if bin := os.Getenv("VERIF_RACE_BIN"); bin != "" {
 		cmd := exec.Command(bin, "-test.timeout", "0", "-test.run", "^TestCheck$")
